@@ -10,9 +10,13 @@ from vf.props import applyrun
 def specs(ck, n, prop, configs):
     out = []
     styles = [s["name"] for s in gs.IMPORT_STYLES]
+    # every import style meets every forced feature in turn (the first rounds are the ones whose absence made seeded changes slip through)
+    rotate = ["dict-with-class-field", "deep-nested-class", "settings", "posonly-star", "nested-class", "typing-named-module",
+              "noncanonical-partial-annotations", "alias-annotations", "typing", "type-checking-try", None]
     for i in range(n):
+        f = rotate[(i // len(styles)) % len(rotate)]
         out.append({"name": f"vfsrc_{prop.lower()}_{ck.seed}_{i}", "seed": f"{prop}:{ck.seed}:{i}", "style": styles[i % len(styles)], "configs": configs,
-                    "cli": i % 3 == 0, "cli_confine": prop == "C16"})
+                    "cli": i % 3 == 0, "cli_confine": prop == "C16" or i % 6 == 0, "force": [f] if f else None})
     # pinned witnesses of the listed findings (forced features), first in both tiers
     pins = [
         {"name": f"vfsrc_{prop.lower()}_pin_local_{ck.seed}", "seed": f"{prop}:pin:1", "style": "function-local-import", "configs": configs, "cli": False},
